@@ -201,6 +201,14 @@ Definition swap_e : expr := Sum 10%N (Const 0) (Var 6%N) (Bin BAdd (Bin BMul (Va
 Definition swap_s : list (N * expr) := [(0%N, Var 1%N); (1%N, Var 0%N)].
 Lemma capture_guard_nonvacuous : capture_free swap_s swap_e = true /\ subst swap_s swap_e <> swap_e.
 Proof. split; [reflexivity | discriminate]. Qed.
+(* ... on which both sides of the substitution lemma HAVE a value, and the substitution matters:
+   Sum(a*k + b, (k, 0, n)) with a := b, b := a, evaluated at a = 2, b = 5, n = 3: 38 (the formula as written: 32) *)
+Definition swap_r : env := mk_env [(0%N, 2 # 1); (1%N, 5 # 1); (6%N, 3 # 1)] [] [].
+Lemma subst_nonvacuous_value :
+  capture_free swap_s swap_e = true /\
+  eval swap_r (subst swap_s swap_e) = Ok (38 # 1) /\ eval (ext swap_r swap_s) swap_e = Ok (38 # 1) /\
+  eval swap_r swap_e = Ok (32 # 1).
+Proof. repeat split; vm_compute; reflexivity. Qed.
 
 (* ---- partial evaluation with numbers ------------------------------------------------------------------------------- *)
 Definition over (l : list (N * Q)) (r : env) : env :=
@@ -283,6 +291,13 @@ Qed.
 
 Lemma cmp_undecided_open : forall f c a b, closed a && closed b = false -> cmp_model f c a b = None.
 Proof. intros f c a b H. unfold cmp_model. rewrite H. reflexivity. Qed.
+(* non-vacuity of cmp_sound / cmp_undecided: Sum(k, (k, 0, 3)) < 13/2 is decided (true), a < 13/2 is not *)
+Definition cmp_a : expr := Sum 10%N (Const 0) (Const (3 # 1)) (Var 10%N).
+Definition cmp_b : expr := Const (13 # 2).
+Lemma cmp_nonvacuous :
+  cmp_model (fun _ _ => None) OLt cmp_a cmp_b = Some true /\ cmp_model (fun _ _ => None) OGe cmp_a cmp_b = Some false /\
+  closed (Var 0%N) && closed cmp_b = false.
+Proof. repeat split; vm_compute; reflexivity. Qed.
 
 (* the rational fragment (no sin/cos/exp): the value is determined by the rational inputs alone, it is the exact
    rational number computed by + - * / floor ... over Q, whatever the interpretation of the transcendental functions *)
